@@ -92,6 +92,7 @@ var controls = []control{
 	{"result-hidden-until-started", []string{"C09"}, false, "seq/seq.go", "func (d *generator[V]) Result() V {\n\treturn d.result", "func (d *generator[V]) Result() V {\n\tif d.next != nil {\n\t\treturn zero[V]()\n\t}\n\treturn d.current", "SEQ.GEN"},
 	{"string-iter-fast-path-unguarded", []string{"C10", "C04"}, false, "seq/iter.go", "\tr, w := utf8.DecodeRuneInString(s.str[s.next:])\n", "\tr, w := rune(s.str[s.next]), 1\n\tif r >= 0xC0 {\n\t\tr, w = utf8.DecodeRuneInString(s.str[s.next:])\n\t}\n", "ITER.STR"},
 	{"switch-pushed-without-combine-check", []string{"C11", "C05"}, false, "rewriter/yield_rewrite.go", "\t\tchildren = r.combineIfNecessary(children) // for init containing yield\n\t\tchildren.push(switchStmt, kindTrival)", "\t\tchildren.push(switchStmt, kindTrival)", "RW.BLOCKSTATE"},
+	{"doc-comments-not-collected", []string{"C13"}, false, "rewriter/rewrite.go", "\t\tf.File.Comments = mergeComments(docComments(f.File), r.comments)\n", "\t\tf.File.Comments = mergeComments(nil, r.comments)\n", "RW.COMMENTS"},
 	{"test-suffix-unmapped", []string{"C16"}, true, "rewriter/compile.go", "\t\t\tfilename = strings.TrimSuffix(filename, testFileSuffix) + \"_test.go\"", "\t\t\tfilename = strings.TrimSuffix(filename, testFileSuffix) + \".go\"", "GEN.NAME"},
 }
 
